@@ -148,9 +148,10 @@ def gen_part(rng, pid, big=False, feat=None):
         nid[0] += 1
         return "%s%s_%d" % (p, pid, nid[0])
 
+    shared_register = rng.random() < 0.3
     for v in range(1, nvoices + 1):
         staff = rng.randint(1, nstaves)
-        octave = 1 + v
+        octave = 3 if shared_register else 1 + v
         prev_single = None  # last single note (for ties)
         silent_measures = set(m for m in range(nm) if rng.random() < 0.12)
         for (cs, ce, cq, m) in cells:
@@ -251,6 +252,7 @@ def gen_part(rng, pid, big=False, feat=None):
             j = rng.randrange(i + 1, min(len(pitched), i + 6))
             if pitched[i]["t"] < pitched[j]["t"]:
                 d["slurs"].append([pitched[i]["id"], pitched[j]["id"]])
+    drop_concurrent_ties(d)
     # a change of divisions sits on a time point of the part (something starts or ends there)
     points = set([m[0] for m in d["measures"]] + [m[1] for m in d["measures"]] + [x[0] for x in d["ts"] + d["ks"] + d["clefs"]])
     for n in d["notes"]:
@@ -258,6 +260,32 @@ def gen_part(rng, pid, big=False, feat=None):
     d["qd"] = [x for x in d["qd"] if x[0] in points]
     gen_extras(rng, d, nstaves)
     return d
+
+
+def _midi(n):
+    return 12 * (n["oct"] + 1) + "C.D.EF.G.A.B".index(n["step"]) + (n["alter"] or 0)
+
+
+def drop_concurrent_ties(d):
+    """concurrently tied notes of one part have distinct pitches (MusicXML pairs ties by pitch): cut the later of two
+    tie chains of one pitch that sound at the same time"""
+    byid = {n["id"]: n for n in d["notes"]}
+    prev = {n["tie"]: n["id"] for n in d["notes"] if n.get("tie")}
+    chains = []
+    for n in d["notes"]:
+        if n.get("tie") and n["id"] not in prev:
+            members = [n]
+            while members[-1].get("tie"):
+                members.append(byid[members[-1]["tie"]])
+            chains.append(members)
+    kept = []
+    for ch in sorted(chains, key=lambda c: c[0]["t"]):
+        lo, hi, p = ch[0]["t"], ch[-1]["t"] + ch[-1]["dur"], _midi(ch[0])
+        if any(p == p2 and lo < hi2 and lo2 < hi for lo2, hi2, p2 in kept):
+            for m in ch:
+                m.pop("tie", None)
+        else:
+            kept.append((lo, hi, p))
 
 
 DYN_MARKS = ["p", "pp", "f", "ff", "mf", "mp", "ppp", "fff"]
@@ -483,6 +511,10 @@ DERIVED_END = ("Page", "System", "ConstantLoudnessDirection", "ConstantTempoDire
                "ResetTempoDirection")
 
 
+def _srt(it):
+    return sorted(it, key=repr)
+
+
 def abstract_part(part):
     """canonical, order-free description of everything the property lists; notes are referred to by their rank in
     `note_key` order"""
@@ -495,23 +527,23 @@ def abstract_part(part):
         return None if n is None else rank.get(id(n), "ext")
 
     A = {"id": part.id, "name": part.part_name or None, "abbr": part.part_abbreviation or None}
-    A["divisions"] = sorted((int(t), int(q)) for t, q in zip(part._quarter_times, part._quarter_durations))
+    A["divisions"] = _srt((int(t), int(q)) for t, q in zip(part._quarter_times, part._quarter_durations))
     # a quarter duration equal to its predecessor is no change (set_quarter_duration drops it / the writer repeats it)
     dv = []
     for t, q in A["divisions"]:
         if not dv or dv[-1][1] != q:
             dv.append((t, q))
     A["divisions"] = dv
-    A["measures"] = sorted((m.start.t, m.end.t, m.number, None if m.name is None else str(m.name)) for m in part.iter_all(S.Measure))
-    A["timesigs"] = sorted((o.start.t, o.beats, o.beat_type) for o in part.iter_all(S.TimeSignature))
-    A["keysigs"] = sorted((o.start.t, o.fifths, o.mode or None) for o in part.iter_all(S.KeySignature))
-    A["clefs"] = sorted((o.start.t, o.staff or 1, o.sign, o.line, o.octave_change or 0) for o in part.iter_all(S.Clef))
+    A["measures"] = _srt((m.start.t, m.end.t, m.number, None if m.name is None else str(m.name)) for m in part.iter_all(S.Measure))
+    A["timesigs"] = _srt((o.start.t, o.beats, o.beat_type) for o in part.iter_all(S.TimeSignature))
+    A["keysigs"] = _srt((o.start.t, o.fifths, o.mode or None) for o in part.iter_all(S.KeySignature))
+    A["clefs"] = _srt((o.start.t, o.staff or 1, o.sign, o.line, o.octave_change or 0) for o in part.iter_all(S.Clef))
     nl = []
     for n in notes:
         kind = type(n).__name__
         e = {"kind": kind, "id": n.id, "start": n.start.t, "end": n.end.t, "voice": n.voice or 1, "staff": n.staff or 1,
              "symdur": _symdur(n), "tie_next": ref(n.tie_next), "tie_prev": ref(n.tie_prev),
-             "art": sorted(a for a in (n.articulations or []) if a in EXPORTED_ARTICULATIONS),
+             "art": _srt(a for a in (n.articulations or []) if a in EXPORTED_ARTICULATIONS),
              "fing": [getattr(t, "fingering", None) for t in (n.technical or []) if isinstance(t, S.Fingering)],
              "stem": n.stem_direction, "fermata": n.fermata is not None}
         if isinstance(n, (S.Note, S.UnpitchedNote)):
@@ -526,24 +558,23 @@ def abstract_part(part):
             e["notehead"] = n.notehead
         nl.append(e)
     A["notes"] = nl
-    A["slurs"] = sorted((ref(o.start_note), ref(o.end_note), o.start.t if o.start else None, o.end.t if o.end else None)
+    A["slurs"] = _srt((ref(o.start_note), ref(o.end_note), o.start.t if o.start else None, o.end.t if o.end else None)
                         for o in part.iter_all(S.Slur))
-    A["tuplets"] = sorted(((ref(o.start_note), ref(o.end_note), o.start.t if o.start else None, o.end.t if o.end else None,
-                            o.actual_notes, o.normal_notes, o.actual_type, o.normal_type) for o in part.iter_all(S.Tuplet)),
-                          key=repr)
+    A["tuplets"] = _srt(((ref(o.start_note), ref(o.end_note), o.start.t if o.start else None, o.end.t if o.end else None,
+                            o.actual_notes, o.normal_notes, o.actual_type, o.normal_type) for o in part.iter_all(S.Tuplet)))
     dirs = []
     for o in part.iter_all(S.Direction, include_subclasses=True):
         cls = type(o).__name__
         end = None if (cls in DERIVED_END or o.end is None) else o.end.t
         dirs.append((o.start.t, cls, o.text, o.raw_text or o.text, o.staff or 1, end, bool(getattr(o, "wedge", False)),
                      bool(getattr(o, "line", False))))
-    A["directions"] = sorted(dirs, key=repr)
-    A["words"] = sorted((o.start.t, o.text, o.staff or 1) for o in part.iter_all(S.Words))
-    A["tempi"] = sorted((o.start.t, _qtempo(o)) for o in part.iter_all(S.Tempo))
-    A["repeats"] = sorted((o.start.t if o.start else None, o.end.t if o.end else None) for o in part.iter_all(S.Repeat))
-    A["endings"] = sorted(((o.start.t if o.start else None, o.end.t if o.end else None, str(o.number)) for o in part.iter_all(S.Ending)), key=repr)
-    A["barline_fermatas"] = sorted(((o.start.t, o.ref) for o in part.iter_all(S.Fermata) if not isinstance(o.ref, S.TimedObject)), key=repr)
-    A["harmony"] = sorted(((o.start.t, type(o).__name__, getattr(o, "text", None)) for o in part.iter_all(S.Harmony, include_subclasses=True)), key=repr)
+    A["directions"] = _srt(dirs)
+    A["words"] = _srt((o.start.t, o.text, o.staff or 1) for o in part.iter_all(S.Words))
+    A["tempi"] = _srt((o.start.t, _qtempo(o)) for o in part.iter_all(S.Tempo))
+    A["repeats"] = _srt((o.start.t if o.start else None, o.end.t if o.end else None) for o in part.iter_all(S.Repeat))
+    A["endings"] = _srt(((o.start.t if o.start else None, o.end.t if o.end else None, str(o.number)) for o in part.iter_all(S.Ending)))
+    A["barline_fermatas"] = _srt(((o.start.t, o.ref) for o in part.iter_all(S.Fermata) if not isinstance(o.ref, S.TimedObject)))
+    A["harmony"] = _srt(((o.start.t, type(o).__name__, getattr(o, "text", None)) for o in part.iter_all(S.Harmony, include_subclasses=True)))
     return A
 
 
@@ -832,7 +863,7 @@ def fixtures():
 def cases(rng, tier):
     for fn in fixtures():
         yield {"k": "fixture", "file": fn}
-    n = {"quick": 60, "thorough": 3000, "search": 1500}.get(tier, 60)
+    n = {"quick": 300, "thorough": 6000, "search": 1500}.get(tier, 300)
     for i in range(n):
         yield gen_score(rng, big=(i % 5 == 0))
 
@@ -1018,8 +1049,13 @@ def _check_roundtrip(ev, s, what, streams, from_file):
             continue
         for mi, (m, (_, evs)) in enumerate(zip(measures, wms)):
             # (i) writer model
-            ev.requests.append("lin " + model_measure(p, m, idx, X))
+            mm = model_measure(p, m, idx, X)
+            ev.requests.append("lin " + mm)
             ev.impl.append(ev_text(evs, idx_of))
+            if not issues:
+                # the hypothesis of the theorem `reader_writer` holds for every measure of a score in the domain
+                ev.requests.append("wf " + mm)
+                ev.impl.append("1")
             # (ii) importer model on the written events, against what load_musicxml made of them
             if mi < len(measures2):
                 m2 = measures2[mi]
@@ -1074,6 +1110,8 @@ def range_streams(ev, s, s2, written, X):
             byname.setdefault(n.id, []).append(n)
         if any(len(v) > 1 for v in byname.values()) or None in byname:
             return
+        if any(e[0] == "n" and e[1] not in byname for (_, evs) in wms for e in evs):
+            return  # ids were renamed by the exporter (duplicates across parts)
         loaded = sorted(p2.iter_all(S.GenericNote, include_subclasses=True), key=lambda n: n.doc_order)
         k = 0
         marks = {"slur": [], "tuplet": []}
@@ -1192,6 +1230,7 @@ def domain_issues(s):
     import partitura.score as S
 
     out = []
+    all_ids = []
     for p in s.parts:
         for cls, key in ((S.TimeSignature, lambda o: o.start.t), (S.KeySignature, lambda o: o.start.t),
                          (S.Clef, lambda o: (o.start.t, o.staff or 1)), (S.Tempo, lambda o: o.start.t)):
@@ -1220,10 +1259,22 @@ def domain_issues(s):
                 out.append("hidden rest")
             if g and n.grace_next is not None and (n.grace_next.voice != n.voice or n.grace_next.start.t != n.start.t):
                 out.append("a grace note away from its main note")
-        if len(set(ids)) != len(ids):
-            out.append("duplicate note ids")
+        all_ids += ids
         if voiced and unvoiced:
             out.append("numbered and unnumbered voices in one part")
+        chains = []
+        for n in p.iter_all(S.Note, include_subclasses=True):
+            if n.tie_next is not None and n.tie_prev is None:
+                last = n
+                while last.tie_next is not None:
+                    if (any(a <= last.start.t < b and a <= last.tie_next.start.t < b for a, b in bounds)
+                            and (last.voice or 0) > (last.tie_next.voice or 0)):
+                        out.append("a tie that runs backwards in the document")
+                    last = last.tie_next
+                chains.append((n.start.t, last.end.t, n.midi_pitch))
+        for i, (lo, hi, pt) in enumerate(chains):
+            if any(pt == p2 and lo < hi2 and lo2 < hi for lo2, hi2, p2 in chains[i + 1:]):
+                out.append("two ties of one pitch sounding at the same time")
         for d in p.iter_all(S.Direction, include_subclasses=True):
             if d.end is not None and d.end.t <= d.start.t:
                 out.append("a direction without extent")
@@ -1241,6 +1292,8 @@ def domain_issues(s):
         for o in list(p.iter_all(S.Repeat)) + list(p.iter_all(S.Ending)):
             if o.start is None or o.end is None:
                 out.append("a half-open repeat or ending")
+    if len(set(all_ids)) != len(all_ids):
+        out.append("duplicate note ids")  # the exporter renames them (one counter for the whole file)
     return sorted(set(out))
 
 
@@ -1287,7 +1340,22 @@ def check_derived_ends(part):
 
 
 def finding_key(desc, failure):
-    return "C03/" + failure.split(":")[0]
+    head = failure.split(":")[0]
+    if head in ("fixpoint", "fixpoint2", "roundtrip/barline_fermatas") and _right_fermata_inside(desc):
+        return "C03/right-barline-fermata"
+    return "C03/" + head
+
+
+def _right_fermata_inside(desc):
+    """a barline fermata with location right that is not at the end of the last measure"""
+    if desc.get("k") != "score":
+        return False
+    for p in desc["parts"]:
+        last = max([m[1] for m in p["measures"]] or [0])
+        for cls, st, en, kw in p.get("extras", []):
+            if cls == "Fermata" and kw.get("ref") == "right" and st < last:
+                return True
+    return False
 
 
 def distribution(descs, results):
